@@ -1053,6 +1053,125 @@ def case_getset(case, ctx):
                 return
 
 
+TINY_ANGLES = [1e-4, 3e-4, 9e-4, 1.1e-3, 2e-3]  # around the theta^2 > 1e-6 branch of angle_axis_to_rotation_matrix
+TINY_FNS = ["angle_axis_to_rotation_matrix", "angle_axis_to_quaternion", "quaternion_to_angle_axis", "rotation_matrix_to_angle_axis",
+            "cycle:aa->R->aa", "cycle:aa->q->aa", "relation:R(w)R(-w)=I"]
+
+
+def case_quat_tiny(case, ctx):
+    """Rotation vectors just below / above the small-angle branch threshold (|w| = 1e-3), both signs, all lattice axes.
+    A first-order error in this range is 2|w| >= 2e-4; the documented accuracy of the unmodified formulas is 1.3e-6
+    (theta + 1e-6 in the denominator) resp. |w|^2/2 <= 5e-7 (Taylor branch), so the floor 4e-6 separates them by 50x."""
+    from deepali.core import linalg as L
+
+    fn, dk, form, seed = case["fn"], case["dtype"], case["form"], case["seed"]
+    sig = f"C08/quat_tiny/fn={fn}/form={form}"
+    ctx.acc.state("quat_tiny", fn, dk, form)
+    rows = []
+    for ax in axes_menu(seed):
+        a = np.asarray(ax, float) / np.linalg.norm(ax)
+        for th in TINY_ANGLES:
+            for sgn in (1.0, -1.0):
+                rows.append(a * th * sgn)
+    AA = np.stack(rows)
+    dtype = DT[dk]
+    AAt = _np(torch.tensor(AA, dtype=dtype))  # the values the implementation actually receives
+    Rw = np.stack([H.rodrigues(v) for v in AAt])
+    Qw = np.stack([H.axis_angle_quat(v, np.linalg.norm(v)) for v in AAt])
+    floor = 4e-6
+    tol = C * EPS[dk] * 3
+    batches = [slice(None)] if form == "batch" else [slice(i, i + 1) for i in range(0, len(AA), case.get("step", 1))]
+
+    def T(x):
+        return torch.tensor(x, dtype=dtype)
+
+    def worst(got, exp):
+        return float(np.abs(got - exp).max())
+
+    for sl in batches:
+        n = len(range(*sl.indices(len(AA))))
+        ctx.acc.trace("quat", n=n)
+        if fn == "angle_axis_to_rotation_matrix":
+            res = ctx.call(sig, L.angle_axis_to_rotation_matrix, T(AA[sl]))
+            if res is None:
+                return
+            if tuple(res.shape) != (n, 3, 3):
+                ctx.bad(sig + "/shape", f"result {tuple(res.shape)}")
+                return
+            g = _np(res)
+            e = worst(g, Rw[sl])
+            if e > tol + floor:
+                ctx.bad(sig + "/value", f"small rotation vectors -> matrix differs from Rodrigues by {e:.3e} > {tol + floor:.2e}")
+                return
+            # relation: (R - I) v = w x v to second order, i.e. the skew part of R is [w]_x
+            skew = (g - np.transpose(g, (0, 2, 1))) / 2
+            w_rec = np.stack([skew[:, 2, 1], skew[:, 0, 2], skew[:, 1, 0]], 1)
+            if worst(w_rec, AAt[sl]) > tol + floor:
+                ctx.bad(sig + "/first-order", f"skew part of R(w) differs from w by {worst(w_rec, AAt[sl]):.3e}: R(w) v - v != w x v")
+                return
+        elif fn == "relation:R(w)R(-w)=I":
+            r1 = ctx.call(sig, L.angle_axis_to_rotation_matrix, T(AA[sl]))
+            r2 = None if r1 is None else ctx.call(sig, L.angle_axis_to_rotation_matrix, T(-AA[sl]))
+            if r2 is None:
+                return
+            res = r2
+            g1, g2 = _np(r1), _np(r2)
+            e = worst(np.einsum("nij,njk->nik", g1, g2), np.eye(3))
+            e2 = worst(g2, np.transpose(g1, (0, 2, 1)))
+            if e > 2 * (tol + floor) or e2 > 2 * (tol + floor):
+                ctx.bad(sig + "/value", f"R(w) R(-w) deviates from I by {e:.3e}; R(-w) from R(w)^T by {e2:.3e}")
+                return
+        elif fn == "angle_axis_to_quaternion":
+            res = ctx.call(sig, L.angle_axis_to_quaternion, T(AA[sl]))
+            if res is None:
+                return
+            g = _np(res).reshape(-1, 4)
+            if g.shape[0] != n or worst(g, Qw[sl]) > tol:
+                ctx.bad(sig + "/value", f"small rotation vectors -> quaternion differs by {worst(g, Qw[sl]) if g.shape[0] == n else 'shape'}")
+                return
+        elif fn == "quaternion_to_angle_axis":
+            res = ctx.call(sig, L.quaternion_to_angle_axis, T(Qw[sl]))
+            if res is None:
+                return
+            g = _np(res).reshape(-1, 3)
+            # q is rounded to dtype: w = vector part * 2 (1 + O(theta^2)); absolute error eps * 2
+            if g.shape[0] != n or worst(g, AAt[sl]) > C * EPS[dk] * 2 + 1e-9:
+                ctx.bad(sig + "/value", f"quaternion of a small rotation -> rotation vector differs by {worst(g, AAt[sl]) if g.shape[0] == n else 'shape'}")
+                return
+        elif fn == "rotation_matrix_to_angle_axis":
+            res = ctx.call(sig, L.rotation_matrix_to_angle_axis, T(Rw[sl]))
+            if res is None:
+                return
+            g = _np(res).reshape(-1, 3)
+            # R is rounded to dtype: off-diagonal entries carry w with absolute error eps
+            if g.shape[0] != n or worst(g, AAt[sl]) > C * EPS[dk] * 2 + 1e-9:
+                ctx.bad(sig + "/value", f"matrix of a small rotation -> rotation vector differs by {worst(g, AAt[sl]) if g.shape[0] == n else 'shape'}")
+                return
+        elif fn == "cycle:aa->R->aa":
+            r1 = ctx.call(sig, L.angle_axis_to_rotation_matrix, T(AA[sl]))
+            res = None if r1 is None else ctx.call(sig, L.rotation_matrix_to_angle_axis, r1)
+            if res is None:
+                return
+            g = _np(res).reshape(-1, 3)
+            if g.shape[0] != n or worst(g, AAt[sl]) > C * EPS["f32" if dk == "f32" else "f64"] * 2 + floor:
+                ctx.bad(sig + "/cycle", f"w -> matrix -> rotation vector returns a vector differing from w by {worst(g, AAt[sl]) if g.shape[0] == n else 'shape'} (|w| <= 2e-3)")
+                return
+        elif fn == "cycle:aa->q->aa":
+            r1 = ctx.call(sig, L.angle_axis_to_quaternion, T(AA[sl]))
+            res = None if r1 is None else ctx.call(sig, L.quaternion_to_angle_axis, r1)
+            if res is None:
+                return
+            g = _np(res).reshape(-1, 3)
+            if g.shape[0] != n or worst(g, AAt[sl]) > C * EPS[dk] * 2 + 1e-9:
+                ctx.bad(sig + "/cycle", f"w -> quaternion -> rotation vector differs from w by {worst(g, AAt[sl]) if g.shape[0] == n else 'shape'}")
+                return
+        else:
+            raise KeyError(fn)
+        ctx.acc.outcome("quat_tiny", fn, dk, form, sl.start, tensor_bytes(res))
+        for i in range(*sl.indices(len(AA))):
+            ctx.acc.nontriv("quat_tiny", fn, dk, i)
+
+
 REUSE_FNS = ["as_homogeneous_matrix", "homogeneous_matrix:none", "homogeneous_matrix:scalar", "homogeneous_matrix:(D,)", "homogeneous_matrix:(lead,D)",
              "homogeneous_matmul", "hmm", "homogeneous_transform", "homogeneous_transform[vectors]"]
 
@@ -1112,6 +1231,7 @@ def case_reuse(case, ctx):
 
 
 SUBS = {
+    "quat_tiny": case_quat_tiny,
     "reuse": case_reuse,
     "matmul": case_matmul,
     "matmul3": case_matmul3,
@@ -1219,6 +1339,10 @@ def cases_quat(tier, seed):
     for fn in QUAT_FNS:
         out.append({"sub": "quat", "fn": fn, "form": "batch", "seed": seed})
         out.append({"sub": "quat", "fn": fn, "form": "single", "seed": seed, "step": 1 if tier == "thorough" else 3})
+    for fn in TINY_FNS:
+        for dk in ("f32", "f64"):
+            out.append({"sub": "quat_tiny", "fn": fn, "dtype": dk, "form": "batch", "seed": seed})
+            out.append({"sub": "quat_tiny", "fn": fn, "dtype": dk, "form": "single", "seed": seed, "step": 1 if tier == "thorough" else 4})
     return out
 
 
